@@ -29,6 +29,13 @@ impl SwiftField for Field71A {
     where
         Self: Sized,
     {
+        // The parser works with byte offsets: refuse multi-byte characters up front
+        if !input.is_ascii() {
+            return Err(ParseError::InvalidFormat {
+                message: "Field 71A must contain only ASCII characters".to_string(),
+            });
+        }
+
         // Must be exactly 3 characters
         let code = parse_exact_length(input, 3, "Field 71A code")?;
 
@@ -78,6 +85,13 @@ impl SwiftField for Field71F {
     where
         Self: Sized,
     {
+        // The parser works with byte offsets: refuse multi-byte characters up front
+        if !input.is_ascii() {
+            return Err(ParseError::InvalidFormat {
+                message: "Field 71F must contain only ASCII characters".to_string(),
+            });
+        }
+
         if input.len() < 4 {
             return Err(ParseError::InvalidFormat {
                 message: format!(
@@ -136,6 +150,13 @@ impl SwiftField for Field71G {
     where
         Self: Sized,
     {
+        // The parser works with byte offsets: refuse multi-byte characters up front
+        if !input.is_ascii() {
+            return Err(ParseError::InvalidFormat {
+                message: "Field 71G must contain only ASCII characters".to_string(),
+            });
+        }
+
         if input.len() < 4 {
             return Err(ParseError::InvalidFormat {
                 message: format!(
